@@ -89,6 +89,20 @@ var warmups = func() []struct {
 		// caller wipes key material): what it does with its own slice must not reach any later call
 		{"same-secret-decoded-and-wiped", nil},
 		{"same-secret-decoded-and-overwritten", nil},
+		{"helpers-refused", func() {
+			// refused helper inputs, each for another reason (sign, foreign character, too long, bad hex)
+			otp.ParseDecimalChallengeRFC6287("-123456789")
+			otp.ParseDecimalChallengeRFC6287("12x4")
+			otp.ParseDecimalChallengeRFC6287(strings.Repeat("9", 400))
+			otp.ParseDecimalToBigEndian8("-1")
+			otp.ParseDecimalToBigEndian8("18446744073709551616")
+			otp.ParseHexTimestamp("zz")
+			otp.ParseHexTimestamp("11223344556677889")
+			otp.HexInputToOCRA("zz", "3132", "q", "r", "s")
+			otp.LeftPadHex("xyz", 4)
+			otp.DecodeSecret("MZXW6YTBOI\u017f")
+			otp.NewRawSuite("OCRA-1:HOTP-SHA1-6:QN08-T0S")
+		}},
 		{"helpers", func() {
 			otp.ParseDecimalChallengeRFC6287("99999999")
 			otp.ParseDecimalToBigEndian8("18446744073709551615")
